@@ -404,6 +404,24 @@ def injected_lines(rng, tier, tree):
             cs.append(K.mk(tree, 'POST', MP, [('Content-Type', 'multipart/form-data; boundary=B')], b, entry=_e4(rng), kind='injected-line'))
     return cs
 
+def framing_relations(rng, tier, tree):
+    """two or three headers that only mean something TOGETHER with the bytes that follow the head: Expect x declared length x the body
+    bytes that really came with the head (none, fewer, exactly, more) x version - a server that answers in two steps (an interim answer,
+    then the final one) puts two responses on the wire, and each of them is a response"""
+    cs = []
+    p0 = _p(tree.names[0])
+    for exp in ([('Expect', '100-continue')], [('expect', '100-CONTINUE')], [('Expect', '100-continue'), ('Connection', 'keep-alive')], []):
+        for cl, body in (('10', b''), ('10', b'abc'), ('10', b'0123456789'), ('3', b'0123456789'), ('100000', b'a=1'), ('0', b''), (None, b'a=1'), ('99999999999999999999', b''), ('x', b'')):
+            for ver in ('HTTP/1.1', 'HTTP/2.0', 'HTTP/1.0'):
+                if tier == 'quick' and not (exp and cl == '10') and not rng.chance(1, 4): continue
+                for m, t, ct in (('POST', UE, 'application/x-www-form-urlencoded'), ('POST', MP, 'multipart/form-data; boundary=B'), ('PUT', p0, 'text/plain'), ('GET', p0, None), ('POST', '/missing', 'text/plain')):
+                    if tier == 'quick' and (m, t) != ('POST', UE) and not rng.chance(1, 3): continue
+                    hs = list(exp) + ([('Content-Length', cl)] if cl is not None else []) + ([('Content-Type', ct)] if ct else []) + ([('Transfer-Encoding', 'chunked')] if rng.chance(1, 8) else [])
+                    raw = (m + ' ' + t + ' ' + ver + '\r\n').encode() + b''.join((n + ': ' + v + '\r\n').encode() for n, v in hs) + b'\r\n' + body
+                    for e in (('proc', 'preq') if (exp and cl == '10') else (_e4(rng),)):
+                        cs.append(K.mk(tree, m, t, hs, body, version=ver, raw=raw, entry=e, kind='framing-relation'))
+    return cs
+
 def error_paths(rng, tier, tree):
     """the answers the server makes up itself: targets not in origin form x methods, failing handlers x methods x messages, read
     errors on both entry points, request buffers smaller than the request, requests larger than the buffer, transports that fail"""
